@@ -279,6 +279,7 @@ class PrintWorld(Renderer):
         self.sim_time = 0.0
         self._pre = None
         self._foreign_seen = set()
+        self.c02_on = True            # C02 judges only the job whose own destinations stay clear
         self.file_feeds = {0.0}       # feed rates (mm/min) the input stream has selected so far
         self.file_retract_amounts = set()   # lengths (mm) of (sums of consecutive) retractions of the file
         self._cycle = []
@@ -580,7 +581,7 @@ class PrintWorld(Renderer):
             self._abstract_state(code, src)
             return
         # C02
-        if "C02" in self.mon:
+        if "C02" in self.mon and self.c02_on:
             if call.wire != [cmd] or call.sent:
                 self.fail("C02", "verbatim", "input %r was forwarded as %r (sent via comm: %r)"
                           % (cmd, call.wire, call.sent))
@@ -891,6 +892,8 @@ class PrintWorld(Renderer):
         elif k == "script_hook":
             self._script(op["name"], stype=op.get("type", "gcode"), send=False)
             self.stats["fault:script_hook_extra"] += 1
+        elif k == "c02_judge":
+            self.c02_on = bool(op["on"])
         elif k == "upload_new":
             # benign concurrent traffic: an upload is filtered offline while the print goes on
             import io
